@@ -14,8 +14,8 @@ PROPERTY = "C16"
 LEVEL = "model_checking"
 RULE = (
     "states = histories over {write(cfg) for cfg in the writer alphabet} u {replace index, edit the last / the first index sample in place, shift the whole index by 0.01, insert "
-    "a curve at position 0, edit another curve, edit a header value, edit WRAP} from 19 roots (scratch LASFiles with "
-    "increasing / decreasing / irregular / single-sample index, with and without units; files read with STOP agreeing "
+    "a curve at position 0, edit another curve, edit a header value, edit WRAP} from 22 roots (scratch LASFiles with "
+    "increasing / decreasing / irregular / single-sample / two-sample index, with and without units; files read with STOP agreeing "
     "or not, STRT disagreeing, 1.2, wrapped, empty-valued items, text curve, duplicate mnemonics, depths around 3000, STRT/STOP/STEP units disagreeing, read with mnemonic_case='lower', a declared STEP of 0 over a regular and an irregular index); on every write "
     "transition: (a) frame - full snapshot before/after differs only inside the statement's allow-list, VERS untouched; "
     "(b) repeat - a write following a write with the same options is byte-identical and changes nothing; (c) truth - "
@@ -66,7 +66,7 @@ def file_text(vers="2.0", wrap="NO", strt="1.0", stop="3.0", step="1.0", text_cu
 
 
 ROOTS = {
-    "scratch-inc": None, "scratch-dec": None, "scratch-irr": None, "scratch-single": None, "scratch-big": None,
+    "scratch-inc": None, "scratch-dec": None, "scratch-irr": None, "scratch-single": None, "scratch-big": None, "scratch-wide": None, "scratch-two": None, "scratch-two-dec": None,
     "read-agree": file_text(), "read-stop-wrong": file_text(stop="2.5"), "read-strt-wrong": file_text(strt="0.5"),
     "read-12": file_text(vers="1.2"), "read-wrapped": file_text(wrap="YES"), "read-text": file_text(text_curve=True),
     "read-dup": file_text(dup=True), "read-stop-wrong-12": file_text(vers="1.2", stop="9"),
@@ -99,6 +99,18 @@ def make_root(name):
         las.append_curve("DEPT", np.arange(n) * 0.5 + 100.0, unit="m")
         for j in range(1, 16):
             las.append_curve("C%d" % j, np.arange(n) * 0.25 + j)
+        return las, True
+    if name == "scratch-wide":
+        # twelve curves: a depth step is longer than one 79-character line, so the wrapped layout depends on data_width
+        las = lasio.LASFile()
+        las.append_curve("DEPT", np.array([100.0, 100.5, 101.0]), unit="m")
+        for j in range(1, 12):
+            las.append_curve("C%d" % j, np.array([1.25, 2.5, np.nan]) * j)
+        return las, True
+    if name in ("scratch-two", "scratch-two-dec"):
+        las = lasio.LASFile()
+        las.append_curve("DEPT", np.array([10.0, 10.5] if name == "scratch-two" else [10.5, 10.25]), unit="m")
+        las.append_curve("GR", np.array([1.0, np.nan]))
         return las, True
     if name == "scratch-single":
         las = lasio.LASFile()
@@ -239,6 +251,7 @@ class Ctx(object):
     def __init__(self, root):
         self.las, self.dirty = make_root(root)
         self.last_write = None  # (cfg_index, text)
+        self.writes = {}        # cfg_index -> (text, snapshot after that write), since the last edit
 
 
 def replay_history(root, tier, history):
@@ -247,7 +260,9 @@ def replay_history(root, tier, history):
     for step, op in enumerate(history):
         if op[0] == "w":
             ctx.last_write = (op[1], do_write(ctx.las, cfgs[op[1]]))
+            ctx.writes[op[1]] = (ctx.last_write[1], snapshot(ctx.las))
         else:
+            ctx.writes = {}
             apply_edit(ctx.las, op[1], step)
             if op[1] in INDEX_EDITS:
                 ctx.dirty = True
@@ -286,7 +301,7 @@ def step_check(root, tier, history, op):
         if not ok:
             return [], None
         dirty = ctx.dirty or op[1] in INDEX_EDITS
-        return [], state_key(las, None, dirty)
+        return [], state_key(las, None, dirty, ())
     cfg = cfgs[op[1]]
     before = snapshot(las)
     try:
@@ -307,6 +322,12 @@ def step_check(root, tier, history, op):
         if before != after:
             vio.append(viol("repeat-memory", root, tier, history, op, "no further in-memory change on the second write",
                             canon.diff_tags(before, after)))
+    # (b') the same options used earlier (other writes in between, no edit), the object in the very state that earlier
+    # write left it in: the text is the same again
+    elif op[1] in ctx.writes and ctx.writes[op[1]][1] == before:
+        if ctx.writes[op[1]][0] != text:
+            vio.append(viol("repeat-text-after-other-writes", root, tier, history, op,
+                            "byte-identical output for the same options and the same in-memory state", _first_text_diff(ctx.writes[op[1]][0], text)))
     # (d) the output carries the data as it is in memory now (to format precision), NaN as NULL
     try:
         back_d = lasio.read(text)
@@ -349,7 +370,7 @@ def step_check(root, tier, history, op):
             vio.append(viol("output-unreadable", root, tier, history, op, "read(output) succeeds", "%s: %s" % (type(e).__name__, str(e)[:150])))
     if vio:
         return vio, None
-    return vio, state_key(las, op[1], ctx.dirty)
+    return vio, state_key(las, op[1], ctx.dirty, tuple(sorted(set(ctx.writes) | {op[1]})))
 
 
 def _first_text_diff(a, b):
@@ -360,10 +381,11 @@ def _first_text_diff(a, b):
     return {"lines": [len(la), len(lb)]}
 
 
-def state_key(las, last_write, dirty):
+def state_key(las, last_write, dirty, written=()):
+    """`written` = the write configurations used since the last edit (module-level writer state may remember them)."""
     snap = snapshot(las)
     ii = None if las.index_initial is None else _bytes(np.asarray(las.index_initial))
-    return hashlib.blake2b(repr((snap, ii, last_write, dirty)).encode(), digest_size=10).hexdigest()
+    return hashlib.blake2b(repr((snap, ii, last_write, dirty, written)).encode(), digest_size=10).hexdigest()
 
 
 def viol(clause, root, tier, history, op, expected, observed):
@@ -381,11 +403,67 @@ def units(tier, seed):
     for root in ROOTS:
         for op in alphabet(tier):
             us.append({"root": root, "tier": tier, "first": op})
+    # write sequences a, b, a in a process of their own (forked per sequence): whatever the writer remembers between
+    # calls at module level cannot hide behind histories explored earlier in the same worker
+    n = len(write_cfgs(tier))
+    for root in ("scratch-wide", "read-agree"):
+        for a in range(n):
+            us.append({"kind": "isolated", "root": root, "tier": tier, "a": a})
     return us
+
+
+def _isolated_sequences(root, tier, a):
+    """Runs in a FRESH interpreter (a worker of the pool has a writing history of its own, and a fork would inherit
+    it); inside it every sequence a, b, a runs in a fork of the still pristine interpreter."""
+    import base64
+    import os
+    import pickle
+    import subprocess
+    import sys
+    repo = os.path.realpath(os.environ.get("VERIF_REPO", "/repo"))
+    vroot = os.path.dirname(os.path.dirname(os.path.dirname(os.path.abspath(__file__))))
+    code = ("import sys, logging; sys.path.insert(0, %r); sys.path.insert(0, %r); logging.disable(logging.CRITICAL);"
+            "from lasiomc.checks import c16; c16._isolated_main(%r, %r, %d)") % (vroot, repo, root, tier, a)
+    p = subprocess.run([sys.executable, "-c", code], stdout=subprocess.PIPE, stderr=subprocess.PIPE, text=True, timeout=600)
+    for line in p.stdout.splitlines():
+        if line.startswith("RESULT"):
+            return pickle.loads(base64.b64decode(line[6:]))
+    raise RuntimeError("isolated interpreter failed: " + p.stderr[-400:])
+
+
+def _isolated_main(root, tier, a):
+    import base64
+    import pickle
+    from ..core import isolate
+    out = []
+    n = len(write_cfgs(tier))
+    for b in range(n):
+        if b == a:
+            continue
+        vio, key = isolate.call(step_check, root, tier, [["w", a], ["w", b]], ["w", a])
+        out.append((b, vio, key))
+    print("RESULT" + base64.b64encode(pickle.dumps(out)).decode())
 
 
 def run_unit(unit):
     root, tier = unit["root"], unit["tier"]
+    if unit.get("kind") == "isolated":
+        res = {"evals": 0, "nontrivial": set(), "outcomes": {}, "violations": [], "samples": [],
+               "states": set(), "transitions": 0, "traces": 0, "max_depth": 3}
+        for b, vio, key in _isolated_sequences(root, tier, unit["a"]):
+            res["evals"] += 1
+            res["transitions"] += 1
+            res["traces"] += 1
+            res["violations"].extend(vio)
+            oc = "isolated-w:" + ("ok" if key else ("violation" if vio else "n/a"))
+            res["outcomes"][oc] = res["outcomes"].get(oc, 0) + 1
+            if key:
+                res["states"].add(key)
+                res["nontrivial"].add(key)
+        res["samples"].append({"root": root, "isolated_sequence": [["w", unit["a"]], ["w", "b"], ["w", unit["a"]]]})
+        from ..core import e1
+        res["violations"] = e1.compress(res["violations"])
+        return res
     depth = DEPTH[tier] if root != "scratch-big" else 1   # the 1000 x 16 root only takes single operations
     res = {"evals": 0, "nontrivial": set(), "outcomes": {}, "violations": [], "samples": [],
            "states": set(), "transitions": 0, "traces": 0, "max_depth": 0}
